@@ -198,6 +198,9 @@ func condensedMsg(txt []byte) string {
 }
 
 func marshalBoth(n *newick.Node) ([]byte, string) {
+	poisonWriters(func(w io.Writer) error {
+		return (&newick.Node{Name: "poison", Children: []*newick.Node{{Name: "lost", Distance: 1}, {Name: "tree"}}}).Write(w)
+	})
 	txt, err := n.MarshalText()
 	if err != nil {
 		return nil, "MarshalText error"
